@@ -6,7 +6,7 @@ module S = Sexp
 
 let thread_of = function
   | S.L [S.A "sub"; s] -> TSub [C19.sub_of s]
-  | S.L [S.A "pub"; id; S.L ev] -> TPub1 (nat_of_int (S.int id), List.map (fun x -> z_of_int (S.int x)) ev)
+  | S.L [S.A "pub"; id; S.L ev] -> TPub1 (nat_of_int (S.int id), List.map C19.ev_of ev)
   | S.L [S.A "unsub"; id] -> TUnsub (nat_of_int (S.int id))
   | x -> failwith ("c20: bad thread " ^ S.to_string x)
 
@@ -14,7 +14,7 @@ let sorted l = List.sort compare l
 let sexp_of_del dl =
   S.L (List.map (fun ((u, m), ok) ->
       S.L [S.of_int (int_of_nat u);
-           S.L (List.map (fun (i, v) -> S.L [S.of_int (int_of_nat i); S.of_int (int_of_z v)]) m);
+           S.L (List.map (fun (i, v) -> S.L [S.of_int (int_of_nat i); C19.sexp_of_ev v]) m);
            S.of_int (if ok then 1 else 0)]) dl)
 let sexp_of_clean cl = S.L (List.map S.of_int (sorted (List.map int_of_nat cl)))
 
@@ -30,7 +30,7 @@ let del_of dl =
   List.map (function
       | S.L [u; S.L m; ok] ->
         ((nat_of_int (S.int u),
-          List.map (function S.L [i; v] -> (nat_of_int (S.int i), z_of_int (S.int v)) | _ -> failwith "c20: msg") m),
+          List.map (function S.L [i; v] -> (nat_of_int (S.int i), C19.ev_of v) | _ -> failwith "c20: msg") m),
          S.int ok <> 0)
       | _ -> failwith "c20: del") dl
 
